@@ -144,7 +144,8 @@ func c09r2(c *Ctx) {
 				}
 				okOld := isLockedRoots(call.Args[0])
 				okNew := false
-				if se, ok := ast.Unparen(call.Args[1]).(*ast.SliceExpr); ok && se.High == nil && se.Low != nil {
+				// (a tail slice named before the call is looked through, provided the sliced list is not written in between)
+				if se, ok := ast.Unparen(originUnwritten(f, call.Args[1], f.Graph().NodeContaining(call.Pos()))).(*ast.SliceExpr); ok && se.High == nil && se.Low != nil {
 					if f.ObjOf(se.X) != nil && f.ObjOf(se.X) == f.ObjOf(rootsArg) {
 						if l := lenOf(f, se.Low); l != nil && isLockedRoots(l) {
 							okNew = true
